@@ -44,7 +44,7 @@ NA = {
 }
 
 # properties that have obligations in the plan for experiments but are NOT claimed (nothing finishes yet)
-HOOK_COMMITS = ["80d9b7d18"]
+HOOK_COMMITS = ["80d9b7d18", "90571269e"]
 EXPERIMENTAL = {"C15"}
 
 
